@@ -104,6 +104,8 @@ type Gen struct {
 	siteOrd map[string]int
 
 	noRefine    bool
+	frameTags   map[string]bool // loop-head version tags whose lazily declared heaps get the auto frame
+	frameDone   map[string]bool
 	fldK        map[string]int
 	retReach    []string
 	smokePts    []smokePt
@@ -347,6 +349,14 @@ func (g *Gen) heap(st *State, name, sort string) string {
 	} else if a, ok := g.tagAlloc[tag]; ok {
 		g.setVerAlloc(name, c, a)
 	}
+	if g.frameTags[tag] && !g.frameDone[c] {
+		g.frameDone[c] = true
+		st2 := &State{heaps: map[string]string{name: c}}
+		save := g.cur
+		g.cur = "true"
+		g.autoFrame([]string{name}, st2)
+		g.cur = save
+	}
 	return c
 }
 
@@ -383,6 +393,9 @@ func (g *Gen) emitAllocInv(name, kind string, v heapVersion) {
 	// a callee without a modifies clause may still initialise the fields of the
 	// objects it allocates, and those live at indices above the counter
 	switch kind {
+	case "refarr":
+		s2 := "(select (select " + v.c + " r) i)"
+		g.emit(fmt.Sprintf("(assert (forall ((r Int) (i Int)) (! (=> (<= r %s) (and (<= 0 %s) (<= %s %s))) :pattern (%s))))", v.alloc, s2, s2, v.alloc, s2))
 	case "ref":
 		g.emit(fmt.Sprintf("(assert (forall %s (! (=> (<= r %s) (and (<= 0 %s) (<= %s %s))) :pattern (%s))))", vars, v.alloc, sel, sel, v.alloc, sel))
 	case "slice":
@@ -404,6 +417,14 @@ func (g *Gen) noteHeapKind(l *Loc) {
 		kind = "ref"
 	case *types.Slice:
 		kind = "slice"
+	case *types.Array:
+		// array-valued field (e.g. ECPoint.coords [2]*big.Int)
+		if a, ok := l.G.Underlying().(*types.Array); ok && l.Kind != LElem {
+			switch a.Elem().Underlying().(type) {
+			case *types.Pointer:
+				kind = "refarr"
+			}
+		}
 	}
 	g.heapKind[l.Heap] = kind
 	if kind != "" {
